@@ -229,5 +229,46 @@ let () =
        | Some v -> (match round_trip v with
            | None -> print_endline "GENERR"
            | Some (text, back) -> Printf.printf "T %s | %s flat=%d\n" (hex_of_bytes text) (match back with RtOk b -> "OK " ^ show_jv b | RtErr -> "ERR" | RtPanic -> "PANIC") (if flat_ok v then 1 else 0)))
+    | ("hdr" | "cd" | "rgspec" | "crv" | "cfgb" | "jprop" | "jtyped" | "upat" | "umatch" | "uext" | "ubuild") :: args ->
+      let a1 = (match args with x :: _ -> x | [] -> "") in
+      let a2 = (match args with _ :: y :: _ -> y | _ -> "") in
+      let strip s = (* same as the Rust side: no trailing blank after OK *) String.trim s in
+      let ok s = print_endline (strip ("OK " ^ s)) in
+      let opt = function Some s -> "s" ^ hex_of_bytes s | None -> "-" in
+      let sgn (ng, m) = (if ng && m <> N0 then "-" else "") ^ dec_of_n m in
+      let utf8ok h = utf8_valid (bytes_of_hex h) in
+      (match List.hd (String.split_on_char (Char.chr 32) l) with
+       | "hdr" -> if not (utf8ok a1) then print_endline "SKIP" else (match parse_header (bytes_of_hex a1) with Some h -> ok (hex_of_bytes h.hname ^ ":" ^ hex_of_bytes h.hvalue) | None -> print_endline "ERR")
+       | "cd" -> if not (utf8ok a1) then print_endline "SKIP" else (match cd_parse (bytes_of_hex a1) with Some c -> ok (hex_of_bytes c.cd_type ^ "|" ^ opt c.cd_name ^ "|" ^ opt c.cd_file) | None -> print_endline "ERR")
+       | "rgspec" -> if not (utf8ok a2) then print_endline "SKIP" else (match parse_range (n_of_dec a1) (bytes_of_hex a2) with ROk' (s, e) -> ok (dec_of_n s ^ "-" ^ dec_of_n e) | R416 -> print_endline "ERR" | RPanicSub -> print_endline "PANIC")
+       | "crv" -> if not (utf8ok a1) then print_endline "SKIP" else (match parse_cr_value (bytes_of_hex a1) with Some ((s, e), z) -> ok (sgn s ^ "," ^ sgn e ^ "," ^ sgn z) | None -> print_endline "ERR")
+       | "cfgb" -> if read_config_bytes (bytes_of_hex a1) then ok "" else print_endline "ERR"
+       | "jprop" -> if not (utf8ok a1) then print_endline "SKIP" else (match property_parse (bytes_of_hex a1) with
+           | JErr -> print_endline "ERR"
+           | JOk ((name, ty), v) -> ok (hex_of_bytes name ^ "|" ^ (match ty with TString -> "String" | TBool -> "bool" | TObject -> "object" | TArray -> "array" | TInt -> "i128" | TFloat -> "f64") ^ "|" ^
+               (match v with VNull -> "null" | VStr s -> "s" ^ hex_of_bytes s | VInt (ng, m) -> sgn (ng, m) | VFloat _ -> "f" | VArr r -> "a" ^ hex_of_bytes r | VObj r -> "o" ^ hex_of_bytes r | VBool b -> if b then "true" else "false")))
+       | "jtyped" -> if not (utf8ok a2) then print_endline "SKIP" else
+           let k = (match a1 with "i8" -> Some (TkInt I8) | "i16" -> Some (TkInt I16) | "i32" -> Some (TkInt I32) | "i64" -> Some (TkInt I64) | "i128" -> Some (TkInt I128)
+                    | "u8" -> Some (TkInt U8) | "u16" -> Some (TkInt U16) | "u32" -> Some (TkInt U32) | "u64" -> Some (TkInt U64) | "u128" -> Some (TkInt U128)
+                    | "f64" | "f32" -> Some TkFloat | "str" -> Some TkStr | "bool" -> Some TkBool | "null" -> Some TkNull | _ -> None) in
+           (match k with None -> print_endline "SKIP" | Some k ->
+             (match typed_read k (bytes_of_hex a2) with
+              | RtErr -> print_endline "ERR" | RtPanic -> print_endline "PANIC"
+              | RtOk (TiInts xs) -> ok (String.concat ";" (List.map sgn xs))
+              | RtOk (TiCount n) -> ok (string_of_int (nat_to_int n))
+              | RtOk (TiStrs xs) -> ok (String.concat ";" (List.map (fun s -> "s" ^ hex_of_bytes s) xs))
+              | RtOk (TiBools xs) -> ok (String.concat ";" (List.map (fun b -> if b then "1" else "0") xs))))
+       | "upat" -> if not (utf8ok a1) then print_endline "SKIP" else (match upath_parts (bytes_of_hex a1) with
+           | UROk ps -> ok (String.concat ";" (List.map (fun p -> if p.up_static then "S" ^ hex_of_bytes (utf8_enc (match p.up_pat with Some x -> x | None -> [])) else "T" ^ hex_of_bytes (utf8_enc (match p.up_name with Some x -> x | None -> []))) ps))
+           | URErr -> print_endline "ERR" | URPanic -> print_endline "PANIC")
+       | "umatch" -> if not (utf8ok a1 && utf8ok a2) then print_endline "SKIP" else (match upath_match (bytes_of_hex a1) (bytes_of_hex a2) with UROk b -> ok (if b then "1" else "0") | URErr -> print_endline "ERR" | URPanic -> print_endline "PANIC")
+       | "uext" -> if not (utf8ok a1 && utf8ok a2) then print_endline "SKIP" else (match upath_extract (bytes_of_hex a1) (bytes_of_hex a2) with
+           | UROk m -> ok (String.concat ";" (List.sort compare (List.map (fun (k, v) -> hex_of_bytes (utf8_enc k) ^ "=" ^ hex_of_bytes (utf8_enc v)) m)))
+           | URErr -> print_endline "ERR" | URPanic -> print_endline "PANIC")
+       | "ubuild" -> if not (utf8ok a2) then print_endline "SKIP" else
+           let pairs = if a1 = "-" then [] else List.map (fun kv -> match String.split_on_char ':' kv with [k; v] -> (bytes_of_hex k, bytes_of_hex v) | [k] -> (bytes_of_hex k, []) | _ -> failwith "kv") (String.split_on_char ';' a1) in
+           if not (List.for_all (fun (k, v) -> utf8_valid k && utf8_valid v) pairs) then print_endline "SKIP" else
+           (match upath_build pairs (bytes_of_hex a2) with UROk s -> ok (hex_of_bytes (utf8_enc s)) | URErr -> print_endline "ERR" | URPanic -> print_endline "PANIC")
+       | _ -> print_endline "?")
     | _ -> print_endline "?"
   done with End_of_file -> ()
